@@ -40,13 +40,19 @@ theorem quiescent_when_idle (s : S) (ev : Ev) (hidle : s.phase = .idle) (hev : e
   | handshake _ => simp [Ev.internal] at hev
   | cmd _ => simp [Ev.internal] at hev
   | lose => simp [Ev.internal] at hev
-  | resume => left; simp [step, hidle]
+  | resume => left; simp only [step, hidle]; split <;> exact ⟨hidle, rfl⟩
   | block => left; simp [step, hidle, S.written]
-  | unblock => left; simp [step, hidle, S.written]
+  | unblock => left; simp only [step, hidle]; split <;> simp [S.written, hidle]
   | kill k =>
+    left
     cases k with
-    | query => left; simp [step, hidle]
-    | conn => right; simp only [step, hidle]; exact throwStart_terminating _ _
+    | query => simp only [step, hidle]; split <;> simp [S.written, hidle]
+    | conn => simp [step, hidle, S.written]
+  | deliver =>
+    simp only [step]
+    split
+    · right; simp only [hidle]; exact throwStart_terminating _ _
+    · left; exact ⟨hidle, rfl⟩
   | eof => right; simp only [step, hidle]; exact closeSession_terminating _ _
 
 /-- handler scripts never touch the session life cycle (hypothesis of the machine theorems, discharged here) -/
